@@ -250,7 +250,15 @@ func (x *execState) slot(s *tw.Stmt, sc *Scope) signal {
 			x.Facts["slot-filled"]++
 			use := x.uses
 			x.uses = use.outer // a slot body belongs to the caller
-			sig := x.block(sl.Body, NewScope(sc, "if"))
+			ss := NewScope(sc, "if")
+			sig := x.block(sl.Body, ss)
+			for name, b := range ss.vars {
+				if old, ok := sc.vars[name]; ok {
+					old.leak = true
+				} else {
+					sc.vars[name] = &binding{v: b.v, pass: sc.pass, leak: true}
+				}
+			}
 			x.uses = use
 			return sig
 		}
